@@ -29,3 +29,25 @@ def readGraph (edges : List (String × String)) (undirected : Bool) : List (Stri
 end Graph
 end Gen
 end Rsbdd
+
+namespace Rsbdd
+namespace Gen
+namespace Graph
+
+def dedupStr (xs : List String) : List String :=
+  xs.foldl (fun acc x => if acc.contains x then acc else acc ++ [x]) []
+
+/-- `augment_colors` (`:186-232`) as a set of unordered pairs of (vertex, colour) copies: two
+copies of different vertices are joined unless they have the same colour and the vertices
+are adjacent.  (The real edge order and orientation follow an `FxHashMap` iteration order
+and are not observable.) -/
+def augmentColors (edges : List (String × String)) (k : Nat) : List ((String × Nat) × (String × Nat)) :=
+  let vs := dedupStr (edges.flatMap (fun e => [e.1, e.2]))
+  let copies := vs.flatMap (fun v => (List.range k).map (fun c => (v, c)))
+  copies.flatMap (fun a => copies.filterMap (fun b =>
+    if a.1 ≠ b.1 ∧ (a.1 < b.1 ∨ (a.1 = b.1 ∧ a.2 < b.2)) ∧
+       (a.2 ≠ b.2 ∨ (!(edges.contains (a.1, b.1)) && !(edges.contains (b.1, a.1)))) then some (a, b) else none))
+
+end Graph
+end Gen
+end Rsbdd
